@@ -41,6 +41,8 @@ Cl(st, e) ==
          LET x == st[e.ep]  q == SeqOf(x, e.dcid)
              issued2 == x.issued \cup {n[1] : n \in ToSet(e.ncids)} IN
          << <<"packet-addressed-at-or-above-retire-prior-to", (q >= 0 /\ ~x.closed) => UseOk(q, x.rpt)>>,
+            <<"packet-never-addressed-to-an-id-announced-as-retired",
+               (q >= 0 /\ ~x.closed) => ~\E sr \in x.sentRetire : sr[1] = q /\ sr[2] # e.dg>>,
             <<"active-issued-ids-within-peer-limit", IssueOk(Cardinality(issued2 \ x.retiredByPeer), LimitAdv)>> >>
     [] e.ev = "end" ->
          << <<"retirement-announced-for-every-abandoned-id",
